@@ -370,17 +370,9 @@ theorem betweenRows_noOT {number : Bool} {k : Kind} (hk : (number = true ∧ k =
   | n + 1, _, [], _, _, _, _ => by simp [betweenRows, NoOT, idxPanic]
   | n + 1, _, _ :: _, [], _, _, _ => by simp [betweenRows, NoOT, idxPanic]
 
-theorem inValues_noOT {number : Bool} {k : Kind} (hk : (number = true ∧ k = .num) ∨ (number = false ∧ k = .text))
-    {left : Value} (hl : left.hasKind k = true) : ∀ (vals : List Value), (∀ v ∈ vals, v.hasKind k = true) →
-      NoOT (inValues number left vals)
-  | [], _ => .ok _
-  | v :: vs, h => by
-    unfold inValues
-    obtain ⟨c, hc⟩ := compareBy_ok hk hl (h v (by simp)) .eq
-    rw [hc]
-    cases c
-    · exact inValues_noOT hk hl vs fun a ha => h a (by simp [ha])
-    · exact .ok _
+theorem inValues_noOT {number : Bool} {k : Kind} (_hk : (number = true ∧ k = .num) ∨ (number = false ∧ k = .text))
+    {left : Value} (_hl : left.hasKind k = true) (vals : List Value) (_h : ∀ v ∈ vals, v.hasKind k = true) :
+    NoOT (inValues number left vals) := .ok _
 
 theorem unpack_kinds {fret : Value} {k kr : Kind} (hk : (k = .text ∧ kr = .listText) ∨ (k = .num ∧ kr = .listNum))
     (hf : fret.hasKind kr = true) : ∃ vals, unpackArray fret = some vals ∧ ∀ v ∈ vals, v.hasKind k = true := by
